@@ -65,6 +65,14 @@ def run(ctx):
                 for i in range(len(mc)):
                     jobs.append({"part": "c03", "instance": inst, "k": 1, "mode": mode, "c03": [mc[i]], "shard": 50 + i})
 
+    # the limbs reach the inner statement through HashNoPad, which reduces them first: that reduction must admit one result only
+    # (C09's uniqueness injection inside HashNoPad; "no second set of limbs is accepted for the same inner proof")
+    from . import oracles
+    hf = oracles.emit(ctx, bn=False)
+    hq = dict(hf)
+    hq.update({"part": "glunique", "mode": "native", "nrandom": 0, "shard": 61})
+    ctx.absorb(ctx.run_driver("poseidon", hq, tag="glunique", timeout=3000), "poseidon")
+
     def one(j):
         return ctx.run_driver("wrapper", j, tag="c03-%s-%s-%d" % (j["instance"], j.get("mode", "native"), j["shard"]), timeout=3400)
 
